@@ -22,7 +22,7 @@ RULE = ("55% srv/cli direct-drive cases: a stream of 1-4 pipelined messages from
         "messages, 101/CONNECT upgrades), 30% of them byte-mutated, under a segmentation (whole, one cut at a chosen point, "
         "1-byte segments, 1-3 random cuts, cuts at CR/LF positions) and a response timing per request; 10% ReceiveBuffer "
         "operation sequences; 35% e2e HttpLayer cases (same grammar, optional streaming policy, both streams segmented, "
-        "random interleaving); thorough adds every single cut point for 30 base streams. Distinct by canonical JSON; "
+        "random interleaving, Expect: 100-continue requests with an origin that honours it, hook completions delayed by 0-4 segments); thorough adds every single cut point for 30 base streams. Distinct by canonical JSON; "
         "non-trivial = at least one message head was extracted (srv/cli/e2e) or one extraction succeeded (buf).")
 TRUSTED = ["Coq 8.16.1 kernel (coqc), vm_compute for case evaluation",
            "harness/props/C02.py (generator, drivers, comparison glue) and harness/lib/sansio.py",
@@ -90,6 +90,9 @@ def make_request(rng, i, direct):
     elif kind == "chunked":
         hs.append(rng.choice([b"Transfer-Encoding: chunked", b"transfer-encoding: Chunked"]))
         body = _chunked(rng, _body(rng, rng.choice([0, 1, 7, 20, 33])))
+    if (kind in ("cl", "chunked") and rng.chance(0.3)) or rng.chance(0.03):
+        # a client that announces Expect but does not wait for the go-ahead
+        hs.insert(rng.randint(1, len(hs)), rng.choice([b"Expect: 100-continue", b"expect: 100-Continue"]))
     if rng.chance(0.08):
         hs.append(b"Connection: close")
     eol = b"\r\n" if rng.chance(0.93) else b"\n"
@@ -282,7 +285,8 @@ def gen_e2e(rng, forced=None):
         cuts = make_cuts(rng, len(s))
     return {"k": "e2e", "client": hx(s), "cuts": cuts, "resps": resps,
             "order": [rng.chance(0.5) for _ in range(24)],
-            "stream_req": rng.chance(0.12), "stream_resp": rng.chance(0.12), "close": rng.chance(0.5)}
+            "stream_req": rng.chance(0.12), "stream_resp": rng.chance(0.12), "close": rng.chance(0.5),
+            "hook_delay": _w(rng, [(0, 5), (1, 3), (2, 1), (4, 1)])}
 
 
 def gen(rng, n, tier):
@@ -796,7 +800,8 @@ def _run_buf(case):
 
 # ---- end to end
 def _count_requests(raw):
-    """number of complete HTTP/1 requests in bytes written by mitmproxy, and the methods"""
+    """number of complete HTTP/1 requests in bytes written by mitmproxy, and per request whether it carries
+    Expect: 100-continue (returned in place of the method list)"""
     n, methods = 0, []
     while raw:
         i = raw.find(b"\r\n\r\n")
@@ -840,19 +845,29 @@ def _count_requests(raw):
                 break
             rest = rest[cl:]
         n += 1
-        methods.append(lines[0].split(b" ")[0])
+        methods.append(hs.get(b"expect", b"").lower() == b"100-continue")
         raw = rest
     return n, methods
 
 
-def _e2e_run(case, ccuts, split_resps, order):
+def _e2e_run(case, ccuts, split_resps, order, hook_delay=0):
+    """hook_delay = number of further segments delivered before a blocking hook completes (0: right after the segment
+    that triggered it, as the event loop would at the earliest)"""
     sansio, lhttp = _M["sansio"], _M["lhttp"]
+    waiting = []                # [hook command, segments left]
+    seen = {}                   # flow ordinal -> request headers as seen by the request hook
 
     def policy(hook, drv):
         if hook.name == "requestheaders" and case["stream_req"]:
             hook.args()[0].request.stream = True
         if hook.name == "responseheaders" and case["stream_resp"]:
             hook.args()[0].response.stream = True
+        if hook.name == "request":
+            f = hook.args()[0]
+            seen[drv.flow_ord(f)] = [[hx(k), hx(v)] for k, v in f.request.headers.fields]
+        if hook.blocking and hook_delay:
+            waiting.append([hook, hook_delay])
+            return sansio.DEFER
 
     d = sansio.Driver(lambda ctx: lhttp.HttpLayer(ctx, lhttp.HTTPMode.regular), policy=policy)
     d.start()
@@ -864,20 +879,36 @@ def _e2e_run(case, ccuts, split_resps, order):
 
     def refill():
         for c in range(1, len(d.conns)):
-            n, _ = _count_requests(d.sent(c))
+            n, expects = _count_requests(d.sent(c))
             while answered.get(c, 0) < n:
-                answered[c] = answered.get(c, 0) + 1
+                idx = answered.get(c, 0)
+                answered[c] = idx + 1
                 r = case["resps"][min(total[0], len(case["resps"]) - 1)]
                 total[0] += 1
                 raw = unhx(r["b"])
+                if expects[idx]:
+                    # an origin server that honours Expect: interim response before the final one
+                    raw = b"HTTP/1.1 100 Continue\r\n\r\n" + raw
                 for s in (segments(raw, r["cuts"]) if split_resps else [raw]):
                     pending.append((c, s))
                 if r["close"]:
                     pending.append((c, None))
 
+    def tick(flush=False):
+        """one segment has been delivered: complete the hooks whose time has come (in order)"""
+        for w in waiting:
+            w[1] -= 1
+        while waiting and (flush or waiting[0][1] <= 0) and d.crashed is None:
+            h = waiting.pop(0)[0]
+            d.complete(h)
+
     steps = 0
-    while (csegs or pending) and d.crashed is None and steps < 2000:
+    while (csegs or pending or waiting) and d.crashed is None and steps < 4000:
         steps += 1
+        if not csegs and not pending:
+            tick(flush=True)
+            refill()
+            continue
         take_client = bool(csegs) and (not pending or order[oi[0] % len(order)])
         oi[0] += 1
         if take_client:
@@ -893,10 +924,16 @@ def _e2e_run(case, ccuts, split_resps, order):
                 d.close(c)
             else:
                 d.data(c, s)
+        tick()
         refill()
     if case["close"] and d.crashed is None and d.conns[0].state & d.CS.CAN_READ:
         d.close(0)
-    return _e2e_outcome(d, case)
+        tick(flush=True)
+    out = _e2e_outcome(d, case)
+    for i, f in enumerate(out["flows"]):
+        if isinstance(f, dict):
+            f["req_at_hook"] = seen.get(i)
+    return out
 
 
 def _msg(m):
@@ -995,7 +1032,7 @@ def run_impl(case):
             base = _recv_view(b)
         return {"res": res, "view": _recv_view(res), "base": base}
     base = _e2e_run(case, [], False, [False])
-    split = _e2e_run(case, case["cuts"], True, case["order"])
+    split = _e2e_run(case, case["cuts"], True, case["order"], case.get("hook_delay", 0))
     return {"base": base, "split": split}
 
 
@@ -1199,4 +1236,8 @@ def classify(case, obs):
             tags.append("e2e-streaming")
         if len(obs["base"]["conns"]) > 2:
             tags.append("e2e-multi-upstream")
+        if b"100-continue" in unhx(case["client"]).lower():
+            tags.append("e2e-expect")
+        if case.get("hook_delay"):
+            tags.append("e2e-hooks-deferred")
     return tags
